@@ -156,6 +156,11 @@ class Tmatrix(ScatteringTheory):
             msg = ("T-matrix calculation did not converge; the scatterer's " +
                    "size or aspect ratio is too large for the T-matrix code.")
             raise InvalidScatterer(scatterer, msg)
+        if not all(np.isfinite(s).all() for s in (s11, s12, s21, s22)):
+            msg = ("T-matrix calculation returned non-finite amplitudes; " +
+                   "the scatterer or its orientation is outside what the " +
+                   "T-matrix code can handle.")
+            raise InvalidScatterer(scatterer, msg)
         for s in [s11, s12, s21, s22]:
             s *= (-2j*np.pi/med_wavelen)
         # ampld returns the amplitude matrix of Mishchenko et al., which
